@@ -6,7 +6,7 @@
    `cpu` the core count, `sched` the order in which the futures complete. *)
 From Coq Require Import Permutation.
 From TL Require Import Lib.Base Lib.GenTypes Model.OrchParTypes Gen.OrchParGen Model.OrchPar Model.OrchParPool Proofs.OrchParPool
-     Model.OrchParRules Proofs.OrchParRules Proofs.OrchParDict Proofs.OrchParMain Actual.OrchParActual Proofs.OrchParRegress.
+     Model.OrchParRules Proofs.OrchParRules Model.OrchParSched Proofs.OrchParSched Proofs.OrchParDict Proofs.OrchParMain Actual.OrchParActual Proofs.OrchParRegress.
 
 Section C07.
   Variables file evidence : Type.
@@ -122,6 +122,52 @@ Theorem C07_stateful_worker_breaks_assignment_independence :
   <> par_run_pooled nat nat nat cnt_step 0 (fun f => f) (fun _ => []) (fun _ => true) ideal (Some 1) 16 [0;1] [0;1] [0;1].
 Proof. exact stateful_worker_breaks_assignment_independence. Qed.
 
+(* 4a. THE POOL AS A MACHINE: k worker processes, a FIFO call queue, and the events "idle worker w takes the next task" /
+       "the future of running task t completes" in ANY interleaving (Model/OrchParSched.v).  Every execution of the machine
+       is a pooled run of 4: its log is an assignment of the tasks to the workers and a completion order that is a
+       permutation of the tasks.  Hence the two lists the statements above quantify over cover every schedule of the pool. *)
+Section C07Machine.
+  Variables file evidence wstate : Type.
+  Variable step : wstate -> file -> option (list violation) * wstate.
+  Variable init : wstate.
+  Variable collect : file -> evidence.
+  Variable report : list evidence -> list violation.
+  Variable parent_sees : file -> bool.
+
+  Theorem C07_machine_is_pooled : forall q mw cpu trace files out,
+    machine_par_run file evidence wstate step init collect report parent_sees q mw cpu trace files = Some out ->
+    exists assign sched,
+      Permutation sched (seq 0 (List.length files)) /\ List.length assign = List.length files
+      /\ out = par_run_pooled file evidence wstate step init collect report parent_sees q mw cpu assign sched files.
+  Proof. exact (machine_is_pooled file evidence wstate step init collect report parent_sees). Qed.
+
+  (* not vacuous for any input: a pool with at least one worker always has an execution *)
+  Theorem C07_machine_has_execution : forall q mw cpu files,
+    0 < effective_workers mw cpu ->
+    exists trace out, machine_par_run file evidence wstate step init collect report parent_sees q mw cpu trace files = Some out.
+  Proof. exact (machine_has_execution file evidence wstate step init collect report parent_sees). Qed.
+
+  Hypothesis state_irrelevant : forall s f, fst (step s f) = fst (step init f).
+  Hypothesis perfile_wf : forall f vs, fresh_perfile file wstate step init f = Some vs -> forallb wf_violation vs = true.
+  Hypothesis report_nil : report [] = [].
+
+  Theorem C07_machine_equals_sequential : forall q mw cpu trace files out,
+    machine_par_run file evidence wstate step init collect report parent_sees q mw cpu trace files = Some out ->
+    out_equiv out (seq_run file evidence (fresh_perfile file wstate step init) collect report files).
+  Proof. exact (machine_equals_seq file evidence wstate step init collect report parent_sees state_irrelevant perfile_wf report_nil). Qed.
+End C07Machine.
+
+(* the machine runs (two workers, four tasks, out-of-order completion) and rejects traces that are not executions *)
+Theorem C07_machine_runs :
+  machine_par_run nat nat nat sch_step 0 (fun f => f) (fun _ => []) (fun _ => true) ideal (Some 2) 16
+    [EStart 0; EStart 1; EFinish 1; EStart 1; EFinish 0; EStart 0; EFinish 3; EFinish 2] [10; 11; 12; 13]
+  = Some (Some (map sch_v [11; 10; 13; 12]))
+  /\ machine_par_run nat nat nat sch_step 0 (fun f => f) (fun _ => []) (fun _ => true) ideal (Some 2) 16
+       [EStart 0; EStart 0; EFinish 0; EFinish 1; EStart 0; EFinish 2; EStart 1; EFinish 3] [10; 11; 12; 13] = None
+  /\ machine_par_run nat nat nat sch_step 0 (fun f => f) (fun _ => []) (fun _ => true) ideal (Some 2) 16
+       [EStart 0; EStart 1; EFinish 1; EFinish 0] [10; 11; 12; 13] = None.
+Proof. exact machine_runs. Qed.
+
 (* 4b. RULE INSTANCES: the tables perfile / collect / report of the statements above are not primitive.  Model/OrchParRules.v
        computes both runs from a registry of STATEFUL rule objects along lint_file (two skip tests, every registered rule
        through _safe_check_rule), _execute_rules, the finalize loops, the per-task fresh Orchestrator and the parent's
@@ -136,11 +182,14 @@ Section C07Rules.
   Variable rules : list (rule file rstate).
   Variable parent_sees : file -> bool.
   Hypothesis rules_local : Forall (report_local file rstate) rules.
+  (* a new registry reports nothing from finalize (lint_files finalizes an EMPTY registry when no file got as far as the
+     rules - discovery is lazy -, the parallel run a discovered one) *)
+  Hypothesis fresh_finalize_nil : forall r g, In r rules -> r_finalize _ _ r = Some g -> g (r_init _ _ r) = [].
 
   Theorem C07_rules_sequential_refines : forall files,
     rseq_run file rstate excluded ignored rules files
     = seq_run file file (r_perfile file rstate excluded ignored rules) (fun f => f) (r_report file rstate excluded ignored rules) files.
-  Proof. exact (rseq_refines file rstate excluded ignored rules rules_local). Qed.
+  Proof. exact (rseq_refines file rstate excluded ignored rules rules_local fresh_finalize_nil). Qed.
 
   Hypothesis rules_wf : forall r f vs, In r rules -> fst (r_check _ _ r (r_init _ _ r) f) = COk vs -> forallb wf_violation vs = true.
 
@@ -149,16 +198,25 @@ Section C07Rules.
     rpar_run file rstate excluded ignored rules parent_sees q mw cpu sched files
     = par_run file file (r_perfile file rstate excluded ignored rules) (fun f => f) (r_report file rstate excluded ignored rules)
               parent_sees q mw cpu sched files.
-  Proof. exact (rpar_refines file rstate excluded ignored rules parent_sees rules_local rules_wf). Qed.
-
-  Hypothesis fresh_finalize_nil : forall r g, In r rules -> r_finalize _ _ r = Some g -> g (r_init _ _ r) = [].
+  Proof. exact (rpar_refines file rstate excluded ignored rules parent_sees rules_local fresh_finalize_nil rules_wf). Qed.
 
   Theorem C07_rules_parallel_equals_sequential : forall q mw cpu sched files,
     Permutation sched (seq 0 (List.length files)) ->
     out_equiv (rpar_run file rstate excluded ignored rules parent_sees q mw cpu sched files)
               (rseq_run file rstate excluded ignored rules files).
-  Proof. exact (rules_par_equals_seq file rstate excluded ignored rules parent_sees rules_local rules_wf fresh_finalize_nil). Qed.
+  Proof. exact (rules_par_equals_seq file rstate excluded ignored rules parent_sees rules_local fresh_finalize_nil rules_wf). Qed.
 End C07Rules.
+
+(* for the cross-file rules themselves the locality hypothesis follows from the source: every class that overrides finalize
+   has a check() that returns [] on every path (generated census, DRYRule and StringlyTypedRule) *)
+Theorem C07_silent_rule_local : forall (file rstate : Type) (r : rule file rstate),
+  (forall s f, fst (r_check _ _ r s f) = COk []) -> report_local file rstate r.
+Proof. exact silent_rule_local. Qed.
+
+Theorem C07_crossfile_rules_census :
+  forallb (fun c : string * bool => snd c) crossfile_checks_silent = true
+  /\ map fst crossfile_checks_silent = ["DRYRule"; "StringlyTypedRule"].
+Proof. exact (proj2 (proj2 (proj2 (proj2 (proj2 (proj2 (proj2 (proj2 rules_facts)))))))). Qed.
 
 (* the locality hypothesis of 4b is necessary: a rule that reports in check() a file whose content its instance has seen *)
 Theorem C07_nonlocal_rule_breaks_parallel :
@@ -221,9 +279,15 @@ Print Assumptions C07_pooled_is_fresh.
 Print Assumptions C07_assignment_independent.
 Print Assumptions C07_pooled_equals_sequential.
 Print Assumptions C07_stateful_worker_breaks_assignment_independence.
+Print Assumptions C07_machine_is_pooled.
+Print Assumptions C07_machine_has_execution.
+Print Assumptions C07_machine_equals_sequential.
+Print Assumptions C07_machine_runs.
 Print Assumptions C07_rules_sequential_refines.
 Print Assumptions C07_rules_parallel_refines.
 Print Assumptions C07_rules_parallel_equals_sequential.
+Print Assumptions C07_silent_rule_local.
+Print Assumptions C07_crossfile_rules_census.
 Print Assumptions C07_nonlocal_rule_breaks_parallel.
 Print Assumptions C07_rules_nonvacuous.
 Print Assumptions C07_cli_output_equiv.
